@@ -247,6 +247,7 @@ pub fn run(tier: &str) -> i32 {
                         break;
                     }
                     let (img, rm) = &kept[i];
+                    crate::sup::tick();
                     let (mut rc, out) = Core::from_image(img.clone(), CacheCfg::Off);
                     if !out.is_ok() {
                         continue;
